@@ -81,6 +81,7 @@ Clauses(e) ==
      LET base == << <<"complete-verdict", e.done.verdict = "all-done">>,
                     <<"complete-main", ~e.done.main_exc>>,
                     <<"complete-seat-threads", e.done.seats_done /\ ~e.done.seats_exc>>,
+                    <<"complete-threads-when-run-returns", e.done.seats_done_at_return>>,
                     <<"clients-complete", ~e.done.clients_exc>> >>
      IN IF AllFails(base) # "" \/ ~DecsComplete(e, Len(e.boards))
         THEN base \o << <<"complete-decisions", DecsComplete(e, Len(e.boards))>> >>
@@ -116,7 +117,11 @@ Clauses(e) ==
   ELSE IF e.kind = "abort" THEN
      IF ~DecsComplete(e, e.completed)
      THEN << <<"abort-decisions-of-finished-boards", FALSE>> >>
-     ELSE << <<"abort-main-stopped", e.done.main_exc>> >>
+     ELSE << <<"abort-main-stopped", e.done.main_exc>>,
+             \* a refused action is not passed on to the other seats
+             <<"stream-no-relay-of-refused-action",
+               ("offence" \in DOMAIN e /\ e.offence # "") =>
+                  \A k \in 1..Len(e.s2c_all) : e.offence \notin SeqRange(e.s2c_all[k])>> >>
           \o ItemClauses(e, e.completed)
   ELSE \* admission
      LET rqs == e.requests
